@@ -33,6 +33,8 @@ fn gen_cfg(m: &HashMap<String, String>, focus: &str) -> GenCfg {
         only_fams: m.get("fams").map(|f| f.split(',').map(|x| x.to_string()).collect()).unwrap_or_default(),
         max_threads: geti(m, "max-threads", 0) as usize,
         wide: geti(m, "wide", 0) as usize,
+        long: geti(m, "long", 0) as usize,
+        long_budget_us: geti(m, "long-budget-us", 2_000_000),
         focus: focus.to_string(),
         max_window: geti(m, "max-window", if focus == "wnaf" { 13 } else { 8 }) as usize,
         min_window: geti(m, "min-window", 2) as usize,
@@ -50,6 +52,8 @@ fn cfg_json(c: &GenCfg) -> J {
         .set("only_fams", J::Arr(c.only_fams.iter().map(|f| J::s(f)).collect()))
         .set("max_threads", J::u(c.max_threads))
         .set("wide", J::u(c.wide))
+        .set("long", J::u(c.long))
+        .set("long_budget_us", J::Int(c.long_budget_us as i64))
         .set("max_window", J::u(c.max_window))
         .set("min_window", J::u(c.min_window))
         .set("with_256", J::Bool(c.with_256))
@@ -60,6 +64,8 @@ fn cfg_from(j: &J) -> GenCfg {
         only_fams: j.get("only_fams").and_then(|x| x.as_arr()).map(|a| a.iter().filter_map(|x| x.as_str().map(|s| s.to_string())).collect()).unwrap_or_default(),
         max_threads: j.get("max_threads").and_then(|x| x.as_usize()).unwrap_or(0),
         wide: j.get("wide").and_then(|x| x.as_usize()).unwrap_or(0),
+        long: j.get("long").and_then(|x| x.as_usize()).unwrap_or(0),
+        long_budget_us: j.get("long_budget_us").and_then(|x| x.as_i64()).unwrap_or(2_000_000) as u64,
         focus: j.get("focus").and_then(|x| x.as_str()).unwrap_or("c20").to_string(),
         max_window: j.get("max_window").and_then(|x| x.as_usize()).unwrap_or(8),
         min_window: j.get("min_window").and_then(|x| x.as_usize()).unwrap_or(2),
@@ -73,6 +79,9 @@ fn cfg_from(j: &J) -> GenCfg {
 pub fn seeded_plan(seed: u64, idx: u64, cfg: &GenCfg) -> SchedPlan {
     if cfg.wide > 0 {
         return gen_wide(mix(seed, ENGINE_ID ^ 0x200, idx), idx as usize, cfg);
+    }
+    if cfg.long > 0 {
+        return gen_long(mix(seed, ENGINE_ID ^ 0x300, idx), idx as usize, cfg);
     }
     gen_plan(mix(seed, ENGINE_ID ^ if cfg.focus == "wnaf" { 0x100 } else { 0 }, idx), cfg)
 }
@@ -392,7 +401,7 @@ pub fn cmd_sched(m: &HashMap<String, String>) -> i32 {
     let replay_dir = m.get("replay-dir").cloned().unwrap_or_else(|| "/verif/replays".to_string());
     let property = m.get("property").cloned().unwrap_or_else(|| if focus == "wnaf" { "C02".into() } else { "C20".into() });
     let cfg = gen_cfg(m, &focus);
-    if cfg.wide > 0 && total == 0 {
+    if (cfg.wide > 0 || cfg.long > 0) && total == 0 {
         // one wide scenario per operation kind of the allowed families
         total = wide_kinds(&cfg).len() as u64;
     }
